@@ -11,7 +11,7 @@ import numba
 import numpy as np
 from numba import _helperlib
 
-SEEDS = {1: 11, 2: 20201, 3: 7, 4: 123456}
+SEEDS = {1: 11, 2: 0, 3: 7, 4: 123456}   # 0 is a legal --mcmc-seed and must seed like any other value
 SEED_ID = {v: k for k, v in SEEDS.items()}
 
 
@@ -155,6 +155,9 @@ def run(task):
         return rec_sn
 
     _nb_draw()  # compile outside any history
+    from mchap import jitutils as _J
+
+    _J.seed_numba(1)  # compile seed_numba while np.random.seed is still numpy's own (numba types the global at compile time)
     header = {"np": fp_np(), "nb": fp_nb(), "inputs": {str(k): v[0] for k, v in inputs.items()}, "seeds": SEEDS}
     nfit = 0
     np.random.seed = rec_np_seed
